@@ -259,7 +259,10 @@ def _trial_child(w, dbmap, plan, arm, watch, retry, twice, known_shas=()):
     want_retry = retry or twice
     # a failed attempt is retried by a caller who is still inside its `except` block (the exception, and whatever
     # it keeps alive, still exist); a successful one is simply followed by the second call
-    r1 = storeops.exec_op(w, dbmap, state, on_failure=(audit_and_retry if want_retry else None))
+    try:
+        r1 = storeops.exec_op(w, dbmap, state, on_failure=(audit_and_retry if want_retry else None))
+    except BaseException:      # KeyboardInterrupt / SystemExit travelled through the library: the process ends now
+        os._exit(137)
     out["r1"] = _slim(r1)
     if "held" in r1:
         out.update(r1["held"])
@@ -308,9 +311,30 @@ def _parent_factory(dbmap_prefix):
             if msg["cmd"] == "op":
                 return storeops.exec_op(msg["op"], dbmap_prefix, state)
             if msg["cmd"] == "trial":
+                def while_zombie(pid, got_data):
+                    """The writer is dead but not yet reaped: somebody else already repeats the operation (on a copy of
+                    everything the dead process left next to the database)."""
+                    path = msg["dbmap"][msg["w"]["db"]]
+                    d = os.path.dirname(path)
+                    if got_data or all(n == os.path.basename(path) for n in os.listdir(d)):
+                        return None
+                    z = d + "-zombie"
+                    shutil.rmtree(z, ignore_errors=True)
+                    shutil.copytree(d, z)
+                    zpath = os.path.join(z, os.path.basename(path))
+                    rr = fork_call(_trial_child, (msg["w"], {msg["w"]["db"]: zpath}, None, None, None, False, False), timeout=120)
+                    out = {"r1": rr["result"]["r1"] if rr["result"] else None}
+                    try:
+                        dz = c08.dump_db(zpath)
+                        out["sha"], out["clean"] = c08.dump_sha(dz), c08.dump_clean(dz)
+                    except Exception as e:
+                        out["sha"], out["clean"], out["dump_error"] = None, False, type(e).__name__
+                    shutil.rmtree(z, ignore_errors=True)
+                    return out
                 r = fork_call(_trial_child, (msg["w"], msg["dbmap"], msg.get("plan"), msg.get("arm"), msg.get("watch"),
                                              msg.get("retry", False), msg.get("twice", False),
-                                             tuple(msg.get("known_shas", ()))), timeout=120)
+                                             tuple(msg.get("known_shas", ()))), timeout=120,
+                              before_reap=(while_zombie if msg.get("zombie_retry") else None))
                 return r
             raise ValueError(msg["cmd"])
         return handler
@@ -374,7 +398,7 @@ class Case:
         self.fresh_trial_file(src)
         r = self.parent.call({"cmd": "trial", "w": w, "dbmap": {"F1": self.trial_path}, "plan": plan, "arm": arm,
                               "watch": (self.trial_dir if self.use_l3 else None), "retry": retry, "twice": twice,
-                              "known_shas": list(known_shas)}, timeout=180)
+                              "known_shas": list(known_shas), "zombie_retry": plan is not None or arm is not None}, timeout=240)
         self.last_lib = None
         if r["result"] is None and any(n != "trial.db" for n in os.listdir(self.trial_dir)):
             # the process died and left more than the database behind (a journal): the NEXT USER'S first access is
@@ -469,7 +493,14 @@ class Case:
                         plans.append(("L1", {"event": i, "when": when, "action": action, "expect_kind": "exec"}, None))
                 for when in ("before", "after"):
                     plans.append(("L2", {"event": i, "when": when, "action": "exit", "expect_kind": "exec"}, None))
+                # orderly death: an exception that is not an Exception (signal handler), `finally` blocks run
+                plans.append(("L2", {"event": i, "when": "before", "action": "raise:" + ("SystemExit" if i % 2 else "KeyboardInterrupt"),
+                              "expect_kind": "exec"}, None))
+                plans.append(("L2", {"event": i, "when": "after", "action": "raise:" + ("KeyboardInterrupt" if i % 2 else "SystemExit"),
+                              "expect_kind": "exec"}, None))
             elif kind == "commit":
+                plans.append(("L1", {"event": i, "when": "before", "action": "raise:OperationalError:database is locked", "sticky": True,
+                                     "expect_kind": "commit"}, None))
                 for when in ("before", "after"):
                     plans.append(("L1", {"event": i, "when": when, "action": "raise:OperationalError:disk I/O error",
                                          "expect_kind": "commit"}, None))
@@ -573,8 +604,8 @@ class Case:
         elif layer == "L2":
             ev = events[plan["event"] - 1]
             pos = f"{ev[0]}:{ev[1]}:{plan['when']}"
-            fkind = "exit"
-            where = f"layer=L2 at={pos}"
+            fkind = "exit" if plan["action"] == "exit" else plan["action"].split(":")[1]
+            where = f"layer=L2 at={pos}" + ("" if fkind == "exit" else f" death={fkind}")
         else:
             sk = SYSCALL_KIND.get(syscalls[arm - 1], "?")
             from_end = len(syscalls) - arm
@@ -676,6 +707,22 @@ class Case:
                 return
             self.count("retries:same-process")
         elif fired:
+            zr = r.get("before_reap")
+            if zr is not None:
+                self.count("probe:retry-while-dead-writer-not-yet-reaped")
+                want_out, want_sha = (out1, sha_post) if state == "pre" else (out2, sha_post2)
+                got = zr["r1"]
+                if got is None or not zr["clean"]:
+                    self.fail("not-repeatable", f"w={wclass} {where} retry=while-writer-unreaped state={state} got=died-or-corrupt", {"zr": zr})
+                    return
+                if got.get("uploaded_id") == out1.get("uploaded_id"):
+                    if got["outcome"] != want_out["outcome"]:
+                        self.fail("not-repeatable", f"w={wclass} {where} retry=while-writer-unreaped state={state} got={got['outcome']} "
+                                  f"want={want_out['outcome']}", {"msg": got.get("msg")})
+                        return
+                    if zr["sha"] != want_sha:
+                        self.fail("retry-result-differs", f"w={wclass} {where} retry=while-writer-unreaped state={state}", {})
+                        return
             fr, fsha, fclean = fresh_expect(state)
             want_out, want_sha = (out1, sha_post) if state == "pre" else (out2, sha_post2)
             same_upload = fr.get("uploaded_id") == out1.get("uploaded_id")
